@@ -56,6 +56,8 @@ func main() {
 		os.Exit(cmdBounds(os.Args[2:]))
 	case "callees":
 		os.Exit(cmdCallees(os.Args[2:]))
+	case "refnames":
+		os.Exit(cmdRefNames(os.Args[2:]))
 	case "debug":
 		os.Exit(cmdDebug(os.Args[2:]))
 	case "census":
